@@ -75,9 +75,11 @@ class Fancy(Plain):
     def extra_paren(self): return False
     def delim(self): return self.sp() + "," + self.sp()
     def lead(self): return self.r.choice(["  ", "\t", " ", "    "])
-    def tail(self): return self.r.choice(["", "", " ; note", "\t;", " // c", "  /* c */", ";x", " ;;", " /**/"])
+    def tail(self): return self.r.choice(["", "", " ; note", "\t;", " // c", "  /* c */", ";x", " ;;", " /**/", " /* 2*3 */", " /** doc */", " /* x **/",
+                                          " /***/", " /* a / b */", " /* ; // */", " ; /* open", " // */ x", " /* \" */"])
     def mid(self): return self.r.choice([" ", "\t", "  "])
-    def between(self): return self.r.choice([[], [], [""], ["; full line"], ["  // another"], ["\t"], ["/* block */"], ["", ";"]])
+    def between(self): return self.r.choice([[], [], [""], ["; full line"], ["  // another"], ["\t"], ["/* block */"], ["", ";"], ["/* 1*2*3 */"], ["/****/"],
+                                             ["  /* * */"], ["; .endif .else .if 0"], ["// .macro x"]])
 
 
 REGS = ["r0", "r5", "r16", "r17", "r30"]
